@@ -148,3 +148,15 @@ Example C02_history_exists :
      [200;0;0;1; 0;0;1; 3;5;2]; [0;3;5; 0;0;1; 3;5;2];
      [1; 0;0;1; 3;5;2]; [1; 0;0;1; 3;5;2]; [0;0;1; 3;5;2]; [1; 3;5;2]; [0;3;5; 3;5;2]].
 Proof. vm_compute. reflexivity. Qed.
+
+(* UpsertServer(u, Weight(w1), Weight(w2)) whose second option fails: an error, and nothing has changed -- neither for an
+   existing server (the options work on a copy) nor for a new one. On the unrepaired code the first option stayed applied
+   and the iterator was not reset: with the last positive weight set to 0 that way, the next NextServer span forever
+   under the balancer's mutex (D20); the second run below is that history. *)
+Example C02_failed_upsert_changes_nothing :
+  run [1; 0] [[0;0;0;1;4]; [0;1;1;1;6]; [2]; [2]; [8;0;0;3;-1]; [8;2;2;3;-1]; [4]; [8;0;0;3;5]]
+  = [[1; 0;0;4]; [1; 0;0;4; 1;1;6]; [0;1;1; 0;0;4; 1;1;6]; [0;0;0; 0;0;4; 1;1;6];
+     [0; 0;0;4; 1;1;6]; [0; 0;0;4; 1;1;6]; [0;0;4; 1;1;6]; [1; 0;0;5; 1;1;6]] /\
+  run [1; 0] [[0;0;0;0;0]; [2]; [8;0;0;0;-1]; [2]; [2]]
+  = [[1; 0;0;1]; [0;0;0; 0;0;1]; [0; 0;0;1]; [0;0;0; 0;0;1]; [0;0;0; 0;0;1]].
+Proof. split; vm_compute; reflexivity. Qed.
